@@ -374,7 +374,53 @@ func checkC13Hdr(r *run, c *HdrCase) (CaseInfo, error) {
 
 var av1Types = []uint8{1, 2, 3, 4, 5, 6, 6, 6, 7, 8, 15, 0, 9, 10, 11, 12, 13, 14, 3, 1}
 
+// genAV1EdgeCase aims at the length-field arithmetic of the payloader: k small OBUs
+// fill the start of a packet (with >= 3 of them the packet is in W=0 mode and every
+// element needs a length prefix), then a large OBU arrives while the free space is at
+// or next to a LEB128 size boundary (127/128, 16383/16384). The MTU is derived from
+// the drawn OBUs so that the boundary is hit exactly.
+func genAV1EdgeCase(t *rapid.T) *AV1Case {
+	c := &AV1Case{LastNoSize: genBool(t, "lastnosize"), UsePkgAlias: genBool(t, "alias")}
+	k := rapid.IntRange(0, 5).Draw(t, "nsmall")
+	prefix := 0
+	ext := genBool(t, "ext")
+	for i := 0; i < k; i++ {
+		o := OBUSpec{Type: rapid.SampledFrom([]uint8{3, 4, 5, 6, 7, 15}).Draw(t, "type"), Seed: rapid.Uint64().Draw(t, "seed"), HasExt: ext, TID: 1, SID: 1}
+		o.Size = rapid.IntRange(0, 3).Draw(t, "smallsize")
+		l := 1 + o.Size
+		if ext {
+			l++
+		}
+		prefix += 1 + l // one-byte length prefix + element
+		c.OBUs = append(c.OBUs, o)
+	}
+	target := rapid.SampledFrom([]int{126, 127, 128, 129, 130, 16382, 16383, 16384, 16385, 16386}).Draw(t, "freespace")
+	mtu := 1 + prefix + target
+	if mtu > 65535 {
+		mtu = 65535
+	}
+	c.MTU = uint16(mtu)
+	big := OBUSpec{Type: rapid.SampledFrom([]uint8{3, 4, 6}).Draw(t, "bigtype"), Seed: rapid.Uint64().Draw(t, "bigseed"), HasExt: ext, TID: 1, SID: 1}
+	hl := 1
+	if ext {
+		hl = 2
+	}
+	big.Size = target - hl + rapid.SampledFrom([]int{-3, -2, -1, 0, 1, 2, 3, 130, 4000}).Draw(t, "bigdelta")
+	if big.Size < 0 {
+		big.Size = 0
+	}
+	c.OBUs = append(c.OBUs, big)
+	if genBool(t, "trailing") {
+		c.OBUs = append(c.OBUs, OBUSpec{Type: 6, Seed: 7, Size: rapid.IntRange(0, 300).Draw(t, "trailsize"), HasExt: ext, TID: 1, SID: 1})
+	}
+
+	return c
+}
+
 func genAV1Case(t *rapid.T) *AV1Case {
+	if rapid.IntRange(0, 5).Draw(t, "edgemode") == 0 {
+		return genAV1EdgeCase(t)
+	}
 	c := &AV1Case{LastNoSize: rapid.IntRange(0, 3).Draw(t, "lastnosize") == 0, NonMinimal: rapid.IntRange(0, 9).Draw(t, "nonminimal") == 0, UsePkgAlias: genBool(t, "alias")}
 	c.MTU = uint16(biased(t, "mtu", 2, 65535, append([]int{2, 3, 4, 5, 6, 7, 8, 9, 10, 16, 20, 1200}, around(3, 130, 16385)...)...))
 	mtu := int(c.MTU)
@@ -406,7 +452,7 @@ func genAV1Case(t *rapid.T) *AV1Case {
 	return c
 }
 
-const ruleC13 = "rapid draws 1-8 OBUs (all 16 types weighted to sequence header/frame/temporal delimiter/tile list, optional extension byte with ids from a small alphabet so that equal and different layer ids both occur, reserved bits free, payload sizes {0,1,2, MTU-1+-3, 2(MTU-1)+-3, 127+-4, 16383+-4, 0-700, sometimes up to 17000}), size fields present on all or omitted on the last, optionally non-minimal LEB128 sizes, MTU 2-65535 biased to 2-20, 127-133, 16382-16388; at most about 600 packets per case. Oracle: independent AV1 RTP parser on every payload (<= MTU, W/length-prefix rule, Z = previous Y, first Z=0, last Y=0, no empty element, has_size_field cleared, one (tid,sid) per packet), byte-exact reassembly, AV1Depacketizer output = OBUs with size fields, AV1Packet + frame.AV1 (directly or through pkg/frame) = OBUs without size field. leb128: WriteToLeb128/ReadLeb128/EncodeLEB128 against an independent codec (quick: +-3 around every 7-bit boundary and drawn values; thorough: all 2^32 values), non-minimal encodings and truncations for the reader. obuheader: all 2^16 byte pairs. Non-trivial = >=2 OBUs with a fragment crossing packets, >=3 elements in one packet, or >=2 distinct layer ids; every leb128/header value; distinct = FNV-64 of the JSON case"
+const ruleC13 = "rapid draws 1-8 OBUs (all 16 types weighted to sequence header/frame/temporal delimiter/tile list, optional extension byte with ids from a small alphabet so that equal and different layer ids both occur, reserved bits free, payload sizes {0,1,2, MTU-1+-3, 2(MTU-1)+-3, 127+-4, 16383+-4, 0-700, sometimes up to 17000}), size fields present on all or omitted on the last, optionally non-minimal LEB128 sizes, MTU 2-65535 biased to 2-20, 127-133, 16382-16388; at most about 600 packets per case; one case in six is an 'edge' case: 0-5 small OBUs followed by a large one, with the MTU derived so that the free space in front of the large OBU is 126-130 or 16382-16386 bytes (the LEB128 length-field boundaries). Oracle: independent AV1 RTP parser on every payload (<= MTU, W/length-prefix rule, Z = previous Y, first Z=0, last Y=0, no empty element, has_size_field cleared, one (tid,sid) per packet), byte-exact reassembly, AV1Depacketizer output = OBUs with size fields, AV1Packet + frame.AV1 (directly or through pkg/frame) = OBUs without size field. leb128: WriteToLeb128/ReadLeb128/EncodeLEB128 against an independent codec (quick: +-3 around every 7-bit boundary and drawn values; thorough: all 2^32 values), non-minimal encodings and truncations for the reader. obuheader: all 2^16 byte pairs. Non-trivial = >=2 OBUs with a fragment crossing packets, >=3 elements in one packet, or >=2 distinct layer ids; every leb128/header value; distinct = FNV-64 of the JSON case"
 
 func TestC13(t *testing.T) {
 	r := begin(t, "C13", "exploration", ruleC13)
